@@ -237,9 +237,10 @@ type execRun struct {
 }
 
 type runner struct {
-	sim   *engine.Sim
-	d     *Desc
-	execs []*execRun
+	sim    *engine.Sim
+	d      *Desc
+	execs  []*execRun
+	shared cff.Emitter // a three-member stack used by every execution that asks for it
 }
 
 //go:norace
@@ -544,6 +545,31 @@ func (h *hh) Bool(k int) bool { return h.x.d.Bools[k&1] }
 
 func (h *hh) Emitter(k int) cff.Emitter { return &recEmitter{x: h.x, k: k} }
 
+func (h *hh) SharedEmitter() cff.Emitter { return h.x.r.shared }
+
+// sinkEmitter stands for a process-wide emitter: it is shared by all
+// executions of a run and records nothing.
+type sinkEmitter struct{}
+
+func (s *sinkEmitter) TaskInit(*cff.TaskInfo, *cff.DirectiveInfo) cff.TaskEmitter { return s }
+func (s *sinkEmitter) FlowInit(*cff.FlowInfo) cff.FlowEmitter                     { return s }
+func (s *sinkEmitter) ParallelInit(*cff.ParallelInfo) cff.ParallelEmitter         { return s }
+func (s *sinkEmitter) SchedulerInit(*cff.SchedulerInfo) cff.SchedulerEmitter      { return s }
+func (*sinkEmitter) FlowSuccess(context.Context)                                  {}
+func (*sinkEmitter) FlowError(context.Context, error)                             {}
+func (*sinkEmitter) FlowDone(context.Context, time.Duration)                      {}
+func (*sinkEmitter) ParallelSuccess(context.Context)                              {}
+func (*sinkEmitter) ParallelError(context.Context, error)                         {}
+func (*sinkEmitter) ParallelDone(context.Context, time.Duration)                  {}
+func (*sinkEmitter) EmitScheduler(cff.SchedulerState)                             {}
+func (*sinkEmitter) TaskSuccess(context.Context)                                  {}
+func (*sinkEmitter) TaskError(context.Context, error)                             {}
+func (*sinkEmitter) TaskErrorRecovered(context.Context, error)                    {}
+func (*sinkEmitter) TaskSkipped(context.Context, error)                           {}
+func (*sinkEmitter) TaskPanic(context.Context, any)                               {}
+func (*sinkEmitter) TaskPanicRecovered(context.Context, any)                      {}
+func (*sinkEmitter) TaskDone(context.Context, time.Duration)                      {}
+
 func (h *hh) Coll(id int) []uint64 {
 	c := h.x.d.Colls[id]
 	if c == nil || c.Nil {
@@ -736,7 +762,7 @@ type Result struct {
 func Exec(t *testing.T, d *Desc, replay, keepTrace bool, states map[uint64]struct{}) *Result {
 	sim := &engine.Sim{Budget: d.Budget, FairAfter: d.FairAfter, KeepTrace: keepTrace, States: states}
 	res := &Result{D: d, Sim: sim}
-	r := &runner{sim: sim, d: d}
+	r := &runner{sim: sim, d: d, shared: cff.EmitterStack(&sinkEmitter{}, &sinkEmitter{}, &sinkEmitter{})}
 	emitters := false
 	for i := range d.Execs {
 		ed := &d.Execs[i]
